@@ -2,9 +2,11 @@ package main
 
 import (
 	"fmt"
-	"strconv"
 	"go/ast"
+	"go/constant"
+	"go/token"
 	"go/types"
+	"strconv"
 	"strings"
 
 	"golang.org/x/tools/go/ssa"
@@ -47,7 +49,7 @@ func (fr *Frame) execCall(ins ssa.Instruction, cc *ssa.CallCommon, c *blockCtx) 
 		}
 		if fc == nil {
 			if g.W.ignored(key) {
-				return fr.ignoredCall(sig, key, c)
+				return fr.ignoredCall(sig, key, c, ins)
 			}
 			g.fail("no contract for interface method %s (called in %s)", key, funcKey(fr.fn))
 		}
@@ -91,6 +93,12 @@ func (fr *Frame) execCall(ins ssa.Instruction, cc *ssa.CallCommon, c *blockCtx) 
 	fv := fr.val(cc.Value)
 	if cl, ok := g.closures[fv.S]; ok {
 		return fr.callStatic(cl.fn, cl.bindings, args, sig, c, ins)
+	}
+	// a function-typed local variable (or captured variable) that holds one known closure
+	if u, ok := cc.Value.(*ssa.UnOp); ok && u.Op == token.MUL {
+		if cl := g.cellClosure[fr.val(u.X).S]; cl != nil {
+			return fr.callStatic(cl.fn, cl.bindings, args, sig, c, ins)
+		}
 	}
 	// a phi over closures made in this function: run each candidate under the condition that it is the callee
 	if phi, ok := cc.Value.(*ssa.Phi); ok {
@@ -146,11 +154,15 @@ func (fr *Frame) execCall(ins ssa.Instruction, cc *ssa.CallCommon, c *blockCtx) 
 	if key, fc := fr.funcValueContract(cc.Value); fc != nil {
 		return fr.applyContract(fc, key, sig, args, sigParamTypes(sig), c, ins)
 	} else if key != "" && g.W.ignored(key) {
-		return fr.ignoredCall(sig, key, c)
+		return fr.ignoredCall(sig, key, c, ins)
 	} else if key != "" {
 		g.fail("no contract for function value %s (called in %s)", key, funcKey(fr.fn))
 	}
-	g.fail("dynamic call through %s (%T) in %s not supported", cc.Value.Name(), cc.Value, funcKey(fr.fn))
+	detail := ""
+	if u, ok := cc.Value.(*ssa.UnOp); ok {
+		detail = fmt.Sprintf(" [load of %s (%T) = %s]", u.X.Name(), u.X, fr.val(u.X).S)
+	}
+	g.fail("dynamic call through %s (%T) in %s not supported%s", cc.Value.Name(), cc.Value, funcKey(fr.fn), detail)
 	return nil
 }
 
@@ -188,7 +200,34 @@ func (fr *Frame) funcValueContract(v ssa.Value) (string, *FuncContract) {
 		key := funcKey(fr.fn) + "#" + p.Name()
 		return key, g.W.contracts[key]
 	}
+	// a function value returned by a call: keyed by the producing callee and the result position,
+	// "<callee key>#ret<k>" (e.g. a cancel function)
+	if ex, ok := v.(*ssa.Extract); ok {
+		if call, ok := ex.Tuple.(*ssa.Call); ok {
+			if k := fr.calleeKey(&call.Call); k != "" {
+				key := fmt.Sprintf("%s#ret%d", k, ex.Index)
+				return key, g.W.contracts[key]
+			}
+		}
+	}
 	return "", nil
+}
+
+// calleeKey names the callee of a call for contract lookup (static functions and interface methods).
+func (fr *Frame) calleeKey(cc *ssa.CallCommon) string {
+	if cc.IsInvoke() {
+		key, _ := fr.g.W.ifaceContract(cc.Value.Type(), cc.Method)
+		return key
+	}
+	if f, ok := cc.Value.(*ssa.Function); ok {
+		return funcKey(f)
+	}
+	if _, isExtract := cc.Value.(*ssa.Extract); !isExtract {
+		if k, _ := fr.funcValueContract(cc.Value); k != "" {
+			return k // a function-typed field
+		}
+	}
+	return ""
 }
 
 // ifaceContract looks up the contract of an interface method, by static receiver type first.
@@ -232,12 +271,42 @@ func (fr *Frame) freshResults(sig *types.Signature, why string) []Term {
 
 // ignoredCall: a call the contracts declare to have no effect on modelled state (loggers). It still is an anchor
 // for "assert ... at before|after call Name#k" clauses.
-func (fr *Frame) ignoredCall(sig *types.Signature, key string, c *blockCtx) []Term {
+func (fr *Frame) ignoredCall(sig *types.Signature, key string, c *blockCtx, ins ssa.Instruction) []Term {
 	fr.callOrd["call:"+key]++
 	site := fmt.Sprintf("%s#%d", lastName(key), fr.callOrd["call:"+key]-1)
-	fr.anchor("before call "+site, c, nil)
+	// text anchors: Name~"substring of a constant string argument" (robust against reordering of log calls)
+	var texts []string
+	if ci, ok := ins.(ssa.CallInstruction); ok {
+		for _, a := range ci.Common().Args {
+			if k, ok := a.(*ssa.Const); ok && k.Value != nil && k.Value.Kind() == constant.String {
+				texts = append(texts, constant.StringVal(k.Value))
+			}
+		}
+	}
+	fire := func(when string, res []Term) {
+		fr.anchor(when+" call "+site, c, res)
+		if fr.contract == nil {
+			return
+		}
+		prefix := when + " call " + lastName(key) + "~\""
+		done := map[string]bool{}
+		for _, a := range fr.contract.Asserts {
+			if !strings.HasPrefix(a.Anchor, prefix) || !strings.HasSuffix(a.Anchor, "\"") || done[a.Anchor] {
+				continue
+			}
+			done[a.Anchor] = true
+			want := a.Anchor[len(prefix) : len(a.Anchor)-1]
+			for _, t := range texts {
+				if strings.Contains(t, want) {
+					fr.anchor(a.Anchor, c, res)
+					break
+				}
+			}
+		}
+	}
+	fire("before", nil)
 	res := fr.freshResults(sig, key)
-	fr.anchor("after call "+site, c, res)
+	fire("after", res)
 	return res
 }
 
@@ -276,7 +345,7 @@ func (fr *Frame) callStatic(fn *ssa.Function, bindings []Term, args []Term, sig 
 		return fr.applyContract(fc, key, fn.Signature, args, pts, c, ins)
 	}
 	if g.W.ignored(key) {
-		return fr.ignoredCall(sig, key, c)
+		return fr.ignoredCall(sig, key, c, ins)
 	}
 	if len(fn.Blocks) > 0 && (fc != nil && fc.Inline || fn.Parent() != nil || g.W.autoInline(fn)) {
 		if fr.depth() >= maxInlineDepth {
